@@ -289,7 +289,31 @@ func (g *gen) sAssign() *Node {
 // sTuple: tuple assignments whose operands alias, swaps.
 func (g *gen) sTuple() *Node {
 	g.spend(1)
-	switch g.rnd(5) {
+	switch g.rnd(7) {
+	case 5, 6: // swap of two elements of a slice or an array of composite values
+		et := g.randType(1)
+		if k := et.under().K; g.chance(70) && k != KStruct && k != KArray {
+			et = g.structType(0)
+			if len(g.named) > 0 {
+				for _, t := range g.named {
+					if t.under().K == KStruct {
+						et = t
+					}
+				}
+			}
+		}
+		st := &Type{K: KSlice, Elem: et}
+		kind := "slice"
+		if g.chance(30) {
+			st = &Type{K: KArray, N: 3, Elem: et}
+			kind = "array"
+		}
+		s, i, j := g.name("s"), g.rnd(3), g.rnd(3)
+		nd := leaf("tuple-assign,swap,"+kind+","+strings.Join(typeFeats(et), ","), s, " := ", g.ts(st), "{", g.expr(et, 2), ", ", g.expr(et, 2), ", ", g.expr(et, 2), "}\n",
+			s, "[", i, "], ", s, "[", j, "] = ", s, "[", j, "], ", s, "[", i, "]\n", s, "[0], ", s, "[2] = ", s, "[2], ", s, "[0]\nfmt.Println(\"swap\", ", g.show(s, st), ")")
+		nd.Decl = []string{s}
+		g.declare(&Var{Name: s, T: st, Nil: true})
+		return nd
 	case 0, 1: // swap two places of the same type
 		a := g.placeWhere(func(p place) bool { return p.assign && !invariantKind(p.t) && !p.outer })
 		if a == nil {
